@@ -8,12 +8,17 @@ TexSoupModel/ArgsDriver.lean:
              | TexNamedEnv(str) | TexText(str)          - a fresh object at every occurrence
              | h<k>: the SAME object at every occurrence in one history
                (h2 = one BracketGroup('b'), every other h<k> = one BraceGroup('a'))
+             | P<k> | Q<k>: the k-th argument object of \\o / \\q of the PARSED probe document PROBE
+               (one parse per history, the same object at every occurrence) - groups with child
+               nodes, unlike what TexGroup.parse makes of the equal string
     op   ::= a:<item> | e:<item>,.. | i:<int>:<item> | r:<item> | p:<int> | p | v | c
              | g:<int> | s:<lo>:<hi> | t          (bounds: int or `_`)
              | x:<lo>:<hi>      target.extend(target[lo:hi])    - extend by a TexArgs object
              | X                target.extend(target)           - extend by the list itself
              | y                target.extend(other)            - `other` = the args of a second command
              | o:<op>           <op> with the roles of target and other swapped (o:y = other.extend(target))
+             | I                (first operation only) target / other are not the empty .args of two
+                                hand-made commands but the .args of \\o / \\q of the parsed PROBE
 
 (`X` used not to terminate on a non-empty TexArgs - the implementation looped over the list it was
 growing, where a Python list doubles; fixed as F20. Every operation on the implementation runs under
@@ -35,10 +40,30 @@ from common import enc, dec, canon_expr         # noqa: E402
 
 # ----------------------------------------------------------------------------- items and ops
 
+#: the probe document behind `I` and the `P<k>`/`Q<k>` items (ArgsDriver.lean has the same string)
+PROBE = r'\o{A \textbf{b} c}[$x$]{{k}}{\begin{e}z\end{e}}{plain} \q{A \textbf{b} c}{plain}[$x$]'
+
+
+def _probe(shared):
+    """(expr of \\o, expr of \\q) of one parse of PROBE per history; their original argument objects
+    are kept in shared['__probe_args__'] (the lists themselves change during the history)."""
+    if '__probe__' not in shared:
+        import TexSoup
+        soup = TexSoup.TexSoup(PROBE)
+        po, pq = soup.find('o').expr, soup.find('q').expr
+        shared['__probe__'] = (po, pq)
+        shared['__probe_args__'] = (tuple(list.__iter__(po.args)), tuple(list.__iter__(pq.args)))
+    return shared['__probe__']
+
+
 def _mk_item(word, shared=None):
     """The Python value an item word denotes: a fresh object every time, except `h<k>`, which
     is one object per history (kept in the dict `shared`)."""
     from TexSoup import data as D
+    if word[:1] in 'PQ':
+        shared = {} if shared is None else shared
+        _probe(shared)
+        return shared['__probe_args__'][word[0] == 'Q'][int(word[1:])]
     if word[:1] == 'h':
         shared = {} if shared is None else shared
         if word not in shared:
@@ -151,12 +176,16 @@ HANG_SEEN = [False]
 OP_TIME_LIMIT = min(common.IMPL_TIME_LIMIT, 5)
 
 
-def _run(ops, target, other, slice_state, state, extra, watched=False):
+def _run(ops, target, other, slice_state, state, extra, start, watched=False):
     """Common loop of impl_run / ref_run over `target` and `other`. With `watched` every operation
     runs under common.time_limit; a hang is the answer `HANG` and ends the history."""
     two = uses_other(ops)
     res = []
     shared = {}
+    if ops and ops[0] == 'I':
+        target, other = start(shared)
+        ops = ops[1:]
+        res.append('none @ ' + state(target) + (' & ' + state(other) if two else '') + extra(target, other))
     for op in ops:
         me, you, op1 = (other, target, op[2:]) if op.startswith('o:') else (target, other, op)
         if not watched:
@@ -176,32 +205,37 @@ def _run(ops, target, other, slice_state, state, extra, watched=False):
         line = out + ' @ ' + state(target)
         if two:
             line += ' & ' + state(other)
-        res.append(line + extra())
+        res.append(line + extra(target, other))
     return ';'.join(res)
 
 
 def impl_run(ops):
     """Canonical answer of the REAL TexSoup.data.TexArgs for the history `ops` (list of
     operation words). The list under test is the `.args` of a command `\\o`, `other` the `.args`
-    of a second command `\\q`; the `str` of both commands is checked after every step
-    ("which is what the owning node prints")."""
+    of a second command `\\q` (hand-made and empty, or - first operation `I` - those of the parsed
+    probe document); the `str` of both commands is checked after every step ("which is what the
+    owning node prints")."""
     common.impl()
     from TexSoup import data as D
-    owner, owner2 = D.TexCmd('o'), D.TexCmd('q')
-    args, other = owner.args, owner2.args
+    owners = [D.TexCmd('o'), D.TexCmd('q')]
+    args, other = owners[0].args, owners[1].args
     assert type(args) is D.TexArgs and len(args) == 0 and args.all == [] and other is not args
+
+    def start(shared):
+        owners[:] = _probe(shared)
+        return owners[0].args, owners[1].args
 
     def slice_state(r):
         if type(r) is not D.TexArgs:
             return 'NOT-TEXARGS ' + repr(r)
         return _state(r, r.all)
 
-    def extra():
-        ok = str(owner) == '\\o' + ''.join(str(x) for x in list.__iter__(args)) and \
-            str(owner2) == '\\q' + ''.join(str(x) for x in list.__iter__(other))
+    def extra(a, o):
+        ok = str(owners[0]) == '\\o' + ''.join(str(x) for x in list.__iter__(a)) and \
+            str(owners[1]) == '\\q' + ''.join(str(x) for x in list.__iter__(o))
         return '' if ok else ' OWNER-MISMATCH'
 
-    return _run(ops, args, other, slice_state, lambda a: _state(a, a.all), extra, watched=True)
+    return _run(ops, args, other, slice_state, lambda a: _state(a, a.all), extra, start, watched=True)
 
 
 # ----------------------------------------------------------------------------- list reference
@@ -243,7 +277,12 @@ class RefList(object):
 
     def remove(self, x):
         y = self._coerce(x)
-        self.l.remove(x if y is None else y)     # a non-argument is simply not in the list
+        t = str(x if y is None else y)           # groups are equal when they print the same; a
+        for j, e in enumerate(self.l):           # non-argument is simply not in the list
+            if str(e) == t:
+                del self.l[j]
+                return
+        raise ValueError(x)
 
     def pop(self, *a):
         return self.l.pop(*a)
@@ -270,12 +309,17 @@ class RefList(object):
         return RefList(self.l)
 
 
+def _ref_start(shared):
+    po, pq = _probe(shared)
+    return RefList(list.__iter__(po.args)), RefList(list.__iter__(pq.args))
+
+
 def ref_run(ops, ref=None, ref_other=None):
     """The same history on plain lists; answers carry `lst=` only."""
     common.impl()
     ref = RefList() if ref is None else ref
     ref_other = RefList() if ref_other is None else ref_other
-    return _run(ops, ref, ref_other, lambda r: _state(r), lambda r: _state(r.l), lambda: '')
+    return _run(ops, ref, ref_other, lambda r: _state(r), lambda r: _state(r.l), lambda a, o: '', _ref_start)
 
 
 _ALL = re.compile(r'\|all=[^ ;]*')
@@ -335,7 +379,10 @@ def bfs_extend(prefix, rest, pool=POOL):
     common.impl()
     ref = RefList()
     for op in prefix:
-        _apply(ref, op, lambda r: '')
+        if op == 'I':
+            ref = _ref_start({})[0]
+        else:
+            _apply(ref, op, lambda r: '')
 
     def rec(pre, ref, d):
         if d == 0:
@@ -387,6 +434,53 @@ def ops_pair_at(nt, no, pool):
     return ops_side_at(nt, pool) + ['y'] + ['o:' + op for op in ops_side_at(no, pool)] + ['o:y']
 
 
+# ----------------------------------------------------------------------------- parsed start states
+
+S_PA, S_PM, S_PK, S_PP = (enc(x) for x in (r'{A \textbf{b} c}', '[$x$]', '{{k}}', '{plain}'))
+#: pool for the histories that start from the PARSED argument lists (`I`): strings and fresh objects
+#: that print like parsed groups with child nodes (but have none, being made by TexGroup.parse), the
+#: parsed objects themselves, a flat twin
+POOL_PARSED = [S_PA, 'g:' + S_PA, S_PK, S_PM, 'P0', 'P2', 'Q0', S_PP]
+PARSED_PREFIXES = [['I'], ['I', 'i:0:' + S_PA], ['I', 'i:1:g:' + S_PK, 'a:' + S_PM], ['a:P0', 'a:' + S_PA]]
+
+
+def ops_parsed_at(n, pool):
+    """Operations offered on a parsed argument list with `n` items: the equality-based ones in full
+    (remove by string / fresh equal object / the object itself), insertions at the ends and next to
+    the front, and a few of each other kind."""
+    idx = sorted({0, 1, -1, n})
+    ops = ['a:' + it for it in pool]
+    ops += ['i:%d:%s' % (i, it) for i in idx for it in pool]
+    ops += ['r:' + it for it in pool]
+    ops += ['p', 'p:0', 'p:1', 'v', 'c', 't', 'X', 'y', 'g:0', 'g:-1', 'g:%d' % n]
+    ops += ['s:_:2', 's:1:_', 's:-2:_', 'x:_:1', 'x:-1:_']
+    ops += ['e:' + ','.join(pool[:2])]
+    return ops
+
+
+def bfs_parsed(prefix, rest, pool=None):
+    """ALL histories that extend `prefix` (of PARSED_PREFIXES) by exactly `rest` operations of
+    `ops_parsed_at`."""
+    pool = POOL_PARSED if pool is None else pool
+    common.impl()
+    refs = (RefList(), RefList())
+    for op in prefix:
+        if op == 'I':
+            refs = _ref_start({})
+        else:
+            _pair_apply(refs, op)
+
+    def rec(pre, refs, d):
+        if d == 0:
+            yield pre
+            return
+        for op in ops_parsed_at(len(refs[0]), pool):
+            r2 = (refs[0].copy(), refs[1].copy())
+            _pair_apply(r2, op)
+            yield from rec(pre + [op], r2, d - 1)
+    return rec(list(prefix), refs, rest)
+
+
 def _pair_apply(refs, op):
     t, o = refs
     if op.startswith('o:'):
@@ -418,7 +512,11 @@ RANDOM_ITEMS = [enc(s) for s in ('{a}', '{a}', '[b]', '{}', '[]', '[a]', '{[b]}'
                                  '{x]', '[', '}', '[x]{y}', 'a', ' {a}', '{a} ', '[]]', '\\c')] + \
                ['g:' + enc('{a}'), 'g@3:' + enc('{a}'), 'g@7:' + enc('{a}'), 'g:' + enc('[b]'),
                 'g@5:' + enc('[]'), 'c:' + enc('c'), 'c:' + enc('a'), 'n:' + enc('e'),
-                'x:' + enc('{a}'), 'x:' + enc(' '), 'x:' + enc('q'), 'h0', 'h0', 'h1', 'h2']
+                'x:' + enc('{a}'), 'x:' + enc(' '), 'x:' + enc('q'), 'h0', 'h0', 'h1', 'h2',
+                'P0', 'P0', 'P1', 'P2', 'P3', 'P4', 'Q0', 'Q2',
+                enc(r'{A \textbf{b} c}'), enc(r'{A \textbf{b} c}'), 'g:' + enc(r'{A \textbf{b} c}'),
+                enc('[$x$]'), 'g:' + enc('[$x$]'), enc('{{k}}'), 'g@9:' + enc('{{k}}'),
+                enc(r'{\begin{e}z\end{e}}'), 'g:' + enc('{plain}')]
 
 
 def random_history(rng, maxlen, items=None):
@@ -462,6 +560,8 @@ def random_history(rng, maxlen, items=None):
             op, n = 'c', 0
         ns[side] = n
         ops.append('o:' + op if side else op)
+    if rng.random() < 0.4:                           # start from the parsed argument lists
+        ops.insert(0, 'I')
     return ops
 
 
@@ -520,6 +620,9 @@ def selftest(driver_path=None, depth=3, nrandom=2000, maxlen=40, verbose=True):
     for pre in PAIR_PREFIXES:                        # two lists, extend by a TexArgs object
         n1b, bad1b = compare(bfs_pair(pre, 2), driver_path)
         n1, bad1 = n1 + n1b, bad1 + bad1b
+    for pre in PARSED_PREFIXES:                      # parsed argument lists, equal strings / objects
+        n1b, bad1b = compare(bfs_parsed(pre, 2), driver_path)
+        n1, bad1 = n1 + n1b, bad1 + bad1b
     t1 = time.time()
     rng = common.rng('lib_args')
     # random histories use a richer pool, including textual twins at different positions:
@@ -534,7 +637,7 @@ def selftest(driver_path=None, depth=3, nrandom=2000, maxlen=40, verbose=True):
            'random_histories': n2, 'random_disagreements': bad2,
            'twin_probe': probe, 'seconds': (round(t1 - t0, 1), round(t2 - t1, 1))}
     if verbose:
-        print('lib_args selftest: BFS depth %d + pair prefixes depth 2: %d histories, %d disagreements (%.1fs); '
+        print('lib_args selftest: BFS depth %d + pair and parsed prefixes depth 2: %d histories, %d disagreements (%.1fs); '
               'random: %d histories, %d disagreements (%.1fs)' %
               (depth, n1, len(bad1), t1 - t0, n2, len(bad2), t2 - t1))
         for b in (bad1 + bad2)[:10]:
